@@ -59,14 +59,18 @@ def run(tier: str, seed: int) -> int:
                                       "shape": geom.make_array(kind, els)}).set_geometry("shape")
                 tb = df.geometry.array.total_bounds
                 for inparts in ([1, 3] if quick else [1, 2, 3]):
-                    mode = rng.choice(["plain", "filtered", "sorted"])
+                    mode = rng.choice(["plain", "filtered", "sorted", "touched-filtered"])
                     src = df
                     if mode == "sorted":
                         hd = df.geometry.hilbert_distance(total_bounds=tb, p=10)
                         src = df.iloc[np.argsort(hd.values, kind="stable")]
                     ddf = dd.from_pandas(src, npartitions=min(inparts, len(src)))
                     kept = list(src["id"])
-                    if mode == "filtered":
+                    if mode == "touched-filtered":
+                        # the parent's partition bounds / index are cached BEFORE rows are filtered away (incl. the extreme ones)
+                        ddf.partition_sindex  # noqa: B018
+                        _ = ddf.cx[0:1, 0:1]
+                    if mode in ("filtered", "touched-filtered"):
                         drop = set(list(src["id"])[:max(1, len(src) // 3)])       # empties the first input partition(s)
                         ddf = ddf[~ddf["id"].isin(drop)]
                         kept = [i for i in kept if i not in drop]
